@@ -1,2 +1,153 @@
+"""Kani contract harnesses on the real crate (DESIGN.md §3.5).
+
+A scratch copy of /repo (Cargo.toml, Cargo.lock, src/) gets harness modules APPENDED as child modules under
+#[cfg(kani)] — the generated accessor harnesses (tools/gen_layouts.py, from contracts/layouts.toml) to the module
+of each header view, kani/state_harness.rs to smbus.rs.  Each harness runs as its own `cargo kani` process
+(parallel), with --no-assertion-reach-checks and a kani::cover! that must be satisfied (vacuity)."""
+import os, re, json, shutil, fnmatch, time, glob
+from concurrent.futures import ThreadPoolExecutor
+import vlib
+
+TIMEOUT = {"quick": 900, "thorough": 3000}
+# bounded components (everything else is complete: loop-free or loops bounded by a field width / fixed array)
+BOUNDS = {
+    "k_step_frame": "bounded: packet length <= 24 bytes (symbolic), pec under its weakest contract, one vendor set",
+    "k_step_frame_long": "bounded: packet length <= 64 bytes (symbolic), pec under its weakest contract, one vendor set",
+    "k_decode_keeps_state": "bounded: packet length <= 24 bytes (symbolic), pec under its weakest contract",
+    "k_sel_next_selector": "n <= 16 vendor sets (the property's own domain); request length 13 is forced by the decoder's length table (proved by Verus)",
+    "k_enum_routing_update": "<= 7 entries (all that the encoder accepts): complete",
+    "k_enum_msg_types": "<= 30 types (all that the encoder accepts): complete",
+    "k_enum_vendor_field": "<= 7 bytes (the documented shape): complete",
+    "k_encode_keeps_state": "four representative encoders, fixed-size buffers",
+}
+
+
+def _module_of(h, acc_index):
+    if h in acc_index:
+        return acc_index[h]["qualified"]
+    return "smbus::verif_kani_state::" + h
+
+
+def prepare(work):
+    crate = os.path.join(work, "kani_crate")
+    if os.path.isdir(crate):
+        return crate, json.load(open(os.path.join(crate, "acc_index.json")))
+    os.makedirs(crate)
+    shutil.copytree(os.path.join(vlib.REPO, "src"), os.path.join(crate, "src"))
+    for f in ("Cargo.toml", "Cargo.lock"):
+        shutil.copy(os.path.join(vlib.REPO, f), crate)
+    gen = os.path.join(crate, "gen")
+    os.makedirs(gen)
+    vlib.run([vlib.sys.executable, os.path.join(vlib.VERIF, "tools/gen_layouts.py"), os.path.join(vlib.VERIF, "contracts/layouts.toml"), gen, os.path.join(gen, "kani_acc")], check=True)
+    acc_index = {}
+    for f in sorted(glob.glob(os.path.join(gen, "kani_acc.*.rs"))):
+        mod = os.path.basename(f)[len("kani_acc."):-3]
+        tgt = os.path.join(crate, "src", mod + ".rs")
+        if not os.path.isfile(tgt):
+            raise vlib.ToolProblem("module %s.rs (layouts.toml) not found in the repository" % mod)
+        with open(tgt, "a") as fh:
+            fh.write("\n" + open(f).read())
+    for e in json.load(open(os.path.join(gen, "kani_acc.index.json"))):
+        acc_index[e["harness"]] = e
+    with open(os.path.join(crate, "src", "smbus.rs"), "a") as fh:
+        fh.write("\n" + open(os.path.join(vlib.VERIF, "kani/state_harness.rs")).read())
+    json.dump(acc_index, open(os.path.join(crate, "acc_index.json"), "w"))
+    return crate, acc_index
+
+
+def all_harness_names(acc_index):
+    names = list(acc_index.keys())
+    txt = open(os.path.join(vlib.VERIF, "kani/state_harness.rs")).read()
+    names += re.findall(r"#\[kani::proof\](?:\s*#\[[^\]]*\])*\s*fn (\w+)", txt)
+    return names
+
+
+def _run_one(crate, qual, timeout):
+    cmd = ["cargo", "kani", "--harness", qual, "--exact", "-Z", "stubbing", "--no-assertion-reach-checks", "--output-format", "terse"]
+    rc, out, err, dt = vlib.run(cmd, cwd=crate, timeout=timeout, env={"CARGO_TARGET_DIR": os.path.join(crate, "target")})
+    txt = out + "\n" + err
+    r = {"time_s": round(dt, 1), "status": "UNKNOWN", "failed_checks": [], "cmd": " ".join(cmd)}
+    if rc == 124:
+        r["status"] = "TIMEOUT"
+        return r
+    m = re.search(r"VERIFICATION:- (\w+)", txt)
+    if m:
+        r["status"] = m.group(1)
+    elif "error" in txt:
+        r["status"] = "BUILD-ERROR"
+        r["detail"] = "\n".join([l for l in txt.splitlines() if l.startswith("error")][:5])
+        return r
+    fc = re.findall(r"Failed Checks: ([^\n]*)\n(?: File: ([^\n]*))?", txt)
+    r["failed_checks"] = ["%s @ %s" % (a, b.strip()) for a, b in fc]
+    cov = re.search(r"(\d+) of (\d+) cover properties satisfied", txt)
+    if cov:
+        r["covers"] = "%s/%s" % (cov.group(1), cov.group(2))
+        if r["status"] == "SUCCESSFUL" and cov.group(1) == "0":
+            r["status"] = "VACUOUS"
+    if any("unwinding assertion" in x for x in r["failed_checks"]) and all("unwinding" in x for x in r["failed_checks"]):
+        r["status"] = "UNWIND"  # a tool bound, not a semantic failure
+    if re.search(r"out of memory|Killed|memory exhausted", txt, re.I):
+        r["status"] = "OOM"
+    vt = re.search(r"Verification Time: ([\d.]+)s", txt)
+    if vt:
+        r["cbmc_s"] = round(float(vt.group(1)), 2)
+    return r
+
+
 def run_harnesses(pats, tier):
-    return {"harnesses": {}, "cmd": "", "bounds": {}}
+    """pats: list of names / glob patterns.  Results cached per harness by the hash of all inputs."""
+    work = vlib.workdir()
+    key_base = vlib.inputs_hash("kani")
+    crate = None
+    acc_index = None
+    # harness names are needed before the crate is prepared only to consult the cache
+    gen_names_key = "kaninames-" + key_base
+    names = vlib.cache_get(gen_names_key)
+    if names is None:
+        crate, acc_index = prepare(work)
+        names = {"all": all_harness_names(acc_index), "acc": acc_index}
+        vlib.cache_put(gen_names_key, names)
+    acc_index = names["acc"]
+    sel = []
+    for p in pats:
+        hit = [n for n in names["all"] if fnmatch.fnmatchcase(n, p)]
+        if not hit:
+            return {"tool_error": "no Kani harness matches %r" % p, "harnesses": {}}
+        for h in hit:
+            if h not in sel:
+                sel.append(h)
+    results = {}
+    todo = []
+    for h in sel:
+        c = vlib.cache_get("kani-%s-%s" % (key_base, h))
+        if c is not None:
+            c["cached"] = True
+            results[h] = c
+        else:
+            todo.append(h)
+    if todo:
+        if crate is None:
+            crate, acc_index = prepare(work)
+        # build once (so the parallel runs only verify)
+        first = todo[0]
+        r0 = _run_one(crate, _module_of(first, acc_index), TIMEOUT[tier])
+        if r0["status"] == "BUILD-ERROR":
+            return {"tool_error": "the Kani harness crate does not build against the current tree: " + r0.get("detail", ""), "harnesses": {}}
+        results[first] = r0
+        rest = todo[1:]
+        # the heavy state harnesses need several GB each: limit parallelism
+        heavy = [h for h in rest if h.startswith("k_step") or h.startswith("k_sel") or h.startswith("k_decode")]
+        light = [h for h in rest if h not in heavy]
+        with ThreadPoolExecutor(max_workers=max(2, min(12, vlib.NCPU - 2))) as ex:
+            futs = {h: ex.submit(_run_one, crate, _module_of(h, acc_index), TIMEOUT[tier]) for h in light}
+            with ThreadPoolExecutor(max_workers=4) as ex2:
+                futs2 = {h: ex2.submit(_run_one, crate, _module_of(h, acc_index), TIMEOUT[tier]) for h in heavy}
+                for h, f in futs2.items():
+                    results[h] = f.result()
+            for h, f in futs.items():
+                results[h] = f.result()
+        for h in todo:
+            if results[h]["status"] in ("SUCCESSFUL", "FAILED"):
+                vlib.cache_put("kani-%s-%s" % (key_base, h), results[h])
+    return {"harnesses": results, "cmd": "cargo kani --harness <h> --exact -Z stubbing --no-assertion-reach-checks (one process per harness, scratch copy of /repo + appended #[cfg(kani)] child modules)",
+            "bounds": {h: BOUNDS[h] for h in sel if h in BOUNDS}}
